@@ -256,6 +256,7 @@ func (l *lexer) scan() {
 						l.emitAtLineColumn(lin, col, tokenText, p)
 						p = 0
 					}
+					l.tag.index = 0
 					err := l.lexShow()
 					if err != nil {
 						l.err = err
@@ -269,6 +270,7 @@ func (l *lexer) scan() {
 						l.emitAtLineColumn(lin, col, tokenText, p)
 						p = 0
 					}
+					l.tag.index = 0
 					var err error
 					if len(l.src) > 2 && l.src[2] == '%' {
 						err = l.lexStatements()
@@ -290,6 +292,7 @@ func (l *lexer) scan() {
 						l.emitAtLineColumn(lin, col, tokenText, p)
 						p = 0
 					}
+					l.tag.index = 0
 					err := l.lexComment()
 					if err != nil {
 						l.err = err
